@@ -616,6 +616,24 @@ func (e *Engine) installIntrinsics() {
 	in["internal/abi.NoEscape"] = func(m *machine, _ *frame, fn *ssa.Function, args []value) value {
 		return args[0]
 	}
+	in["internal/bytealg.CountString"] = func(m *machine, _ *frame, fn *ssa.Function, args []value) value {
+		bs := m.strBytes(args[0].(strV))
+		c := args[1].(*Term)
+		n := m.ctx.BV(0, 64)
+		for _, b := range bs {
+			n = m.ctx.Add(n, m.ctx.Ite(m.ctx.Eq(b, c), m.ctx.BV(1, 64), m.ctx.BV(0, 64)))
+		}
+		return n
+	}
+	in["internal/bytealg.MakeNoZero"] = func(m *machine, _ *frame, fn *ssa.Function, args []value) value {
+		n := m.allocSize(args[0], "bytealg.MakeNoZero")
+		out := make([]value, n)
+		for i := range out {
+			out[i] = m.ctx.BV(0, 8)
+		}
+		m.registerArray(out, nil)
+		return out
+	}
 	in["os.Getenv"] = func(m *machine, _ *frame, fn *ssa.Function, args []value) value {
 		return strV{}
 	}
